@@ -82,6 +82,8 @@ class EngineProperty:
 
     def shrink(self, case, sig, max_trials=250):
         program, aux = case[0], case[1] if len(case) > 1 else None
+        if 'ops' not in program:
+            return case
         base = sig.split('/known:')[0]
 
         def still(p):
